@@ -45,7 +45,7 @@ def gen_run(rng, tier):
         for seq in G.exhaustive(pool, maxlen):
             yield {"universe": U, "steps": G.fixed_world(U, seq), "keep": True}
     # 3. seeded random universes, worlds and longer histories
-    n = 220 if tier == "quick" else 6000
+    n = 220 if tier == "quick" else 3500
     for _ in range(n):
         U = G.rand_universe(rng)
         keys = G.index_keys(U)
@@ -88,7 +88,7 @@ Q_POOL = ["x", "{urn:a}x", "{urn:b}x", "{urn:a}y", "{}x", "{urn:a}", "{!urn:a}x"
 def gen_memo(rng, tier):
     for nss in ([], [""], ["##any"], ["urn:a"], ["!urn:a"], ["!"], ["", "urn:b"], ["##other", "urn:a"]):
         yield {"nss": nss, "qs": Q_POOL + Q_POOL[::-1]}
-    n = 400 if tier == "quick" else 20000
+    n = 400 if tier == "quick" else 10000
     for _ in range(n):
         nss = rng.sample(NSS_POOL, rng.randint(0, 3))
         yield {"nss": nss, "qs": [rng.choice(Q_POOL) for _ in range(rng.randint(1, 12))]}
@@ -126,7 +126,7 @@ def gen_lru(rng, tier):
         yield {"fn": "split_qname", "calls": calls}
     yield {"fn": "build_qname", "calls": [[None, None], ["", ""], [None, "x"], [None, "x"], ["urn:a"], ["urn:a", None], ["urn:a"], ["", "x"], [None]]}
     yield {"fn": "split_qname", "calls": [["x"], [""], ["{a}b"], ["{a}"], ["{}b"], ["{a}b"], ["x"], [""], ["{"], ["{a"], ["{a}b}c"]]}
-    n = 150 if tier == "quick" else 5000
+    n = 150 if tier == "quick" else 2500
     for _ in range(n):
         if rng.random() < 0.5:
             m = rng.choice([3, 10, 60, 74])
@@ -174,6 +174,19 @@ def rec_doc(decls):
     return s
 
 
+def rec_chain(obj):
+    """the parse result of a rec_doc document: the qualified names of the nested <k> elements,
+    outermost first (RecRoot.any holds one AnyElement, which holds the next one, ...)"""
+    out = []
+    level = obj.any
+    while level:
+        if len(level) != 1:
+            return ["?more-than-one-child"]
+        out.append(level[0].qname)
+        level = level[0].children
+    return out
+
+
 def _handlers():
     from xsdata.formats.dataclass.parsers.handlers import LxmlEventHandler, XmlEventHandler
 
@@ -188,9 +201,10 @@ def impl_rec(a):
     out = []
     for c in a["calls"]:
         arg = None if c["arg"] is None else {p: u for p, u in c["arg"]}
-        parser.from_string(rec_doc(c["decls"]), RecRoot, ns_map=arg)
+        obj = parser.from_string(rec_doc(c["decls"]), RecRoot, ns_map=arg)
         out.append({"inst": [[p, u] for p, u in parser.ns_map.items()],
-                    "arg": None if arg is None else [[p, u] for p, u in arg.items()]})
+                    "arg": None if arg is None else [[p, u] for p, u in arg.items()],
+                    "result": rec_chain(obj)})
     return ok(out)
 
 
@@ -201,7 +215,7 @@ def gen_rec(rng, tier):
         yield {"handler": h, "calls": [{"decls": [["p", "urn:a"]], "arg": None}, {"decls": [["p", "urn:b"]], "arg": None}]}
         yield {"handler": h, "calls": [{"decls": [["p", "urn:a"], ["p", "urn:b"], ["q", "urn:a"]], "arg": [["q", "urn:z"]]},
                                        {"decls": [["q", "urn:c"]], "arg": None}, {"decls": [], "arg": []}]}
-        n = 60 if tier == "quick" else 3000
+        n = 60 if tier == "quick" else 1500
         for _ in range(n):
             calls = []
             for _ in range(rng.randint(1, 5)):
@@ -435,10 +449,10 @@ def make_kit(ctx):
 def run_docs(universe, steps, ctx_factory=None):
     realm = L.Realm(universe)
     try:
-        realm.set_world(len(universe), 0)
         shared = make_kit(ctx_factory(realm) if ctx_factory else realm.context())
         out = []
         for st in steps:
+            realm.set_world(st["loaded"], st["mods"])  # classes / modules may appear between the calls
             o = doc_call(realm, shared, st["op"])
             f = doc_call(realm, make_kit(realm.context()), st["op"])
             out.append((o, f))
@@ -456,22 +470,53 @@ def check_doc_history(a):
     return None
 
 
-def covered_doc_history(a, msg):
-    k = int(msg.split("#")[1].split(" ")[0])
-    U = a["universe"]
+READS_INDEX_BY_FIELDS = ("json_parse_any", "find_type_by_fields")
+READS_INDEX_BY_NAME = ("xml_parse", "json_parse", "dict_decode", "find_types", "find_type", "find_subclass", "fetch")
 
-    def runner(window):
-        realm = L.Realm(U)
-        try:
-            realm.set_world(len(U), 0)
-            ctx = RecCtx.make(realm.pkg)
-            kit = make_kit(ctx)
-            for st in window:
-                doc_call(realm, kit, st["op"])
-            return [(realm.cid(c), p) for c, p in ctx.log]
-        finally:
-            realm.close()
-    return known_finding_for(U, a["steps"], k, runner)
+
+def covered_doc_history(a, msg):
+    """A document-level divergence belongs to a listed finding exactly when the mechanism of
+    that finding is at work on the unchanged code: re-run the history up to the failing call on
+    a shared kit and compare the shared context's type index with the index a fresh context
+    builds in the same world.  If the shared stamp is current (the next lookup will NOT refresh)
+    and classes are missing from the shared index, the failing call reads a stale / evicted
+    index (a stale index also affects by-fields lookups, an eviction only lookups by name): all missing classes unbuildable -> evicted by local_names_match (C14-F3), otherwise
+    defined without a change of len(sys.modules) (C14-F2).  The failing call must be one that
+    reads the index by qualified name."""
+    import sys as _sys
+
+    k = int(msg.split("#")[1].split(" ")[0])
+    U, steps = a["universe"], a["steps"]
+    kind = steps[k]["op"]["k"]
+    if kind not in READS_INDEX_BY_NAME + READS_INDEX_BY_FIELDS:
+        return None
+    realm = L.Realm(U)
+    try:
+        kit = make_kit(realm.context())
+        for st in steps[:k]:
+            realm.set_world(st["loaded"], st["mods"])
+            doc_call(realm, kit, st["op"])
+        realm.set_world(steps[k]["loaded"], steps[k]["mods"])
+        ctx = kit[0]
+        if ctx.sys_modules != len(_sys.modules):
+            return None  # the failing call refreshes the index first: neither finding applies
+        fresh = realm.context()
+        fresh.build_xsi_cache()
+        missing = [c for q, l in fresh.xsi_cache.items() for c in l if c not in ctx.xsi_cache.get(q, [])]
+        if not missing:
+            return None
+        ids = [realm.cid(c) for c in missing]
+    finally:
+        realm.close()
+    if all(not _buildable(U, i) for i in ids):
+        # evicted classes: by-fields lookups are provably unaffected (history_independent_evicting)
+        return "C14-F3" if kind in READS_INDEX_BY_NAME else None
+    seen = {}
+    start = max([i + 1 for i in range(k) if steps[i]["op"]["k"] == "reset"], default=0)
+    for st in steps[start:k + 1]:
+        if seen.setdefault(st["mods"], st["loaded"]) != st["loaded"]:
+            return "C14-F2"
+    return None
 
 
 def gen_doc_history(rng, tier):
@@ -487,16 +532,35 @@ def gen_doc_history(rng, tier):
     yield {"universe": U, "steps": G.fixed_world(U, [
         {"k": "json_parse_any", "doc": '{"x": "v"}', "c": None}, {"k": "xml_render", "toks": G.DOC_PA},
         {"k": "xml_parse", "doc": '<ns0:PB xmlns:ns0="urn:b"><ns0:c><ns0:x>v</ns0:x></ns0:c></ns0:PB>', "c": 2}])}
-    n = 200 if tier == "quick" else 4000
+    # an unbuildable class under the name of a buildable one: a class-less JSON parse evicts it,
+    # a class-less XML parse then binds the namesake (fresh instances: XmlContextError)
+    U = G.U_BAD2
+    yield {"universe": U, "steps": G.fixed_world(U, [
+        {"k": "json_parse_any", "doc": '{"x": "v"}', "c": None},
+        {"k": "xml_parse", "doc": '<T xmlns="urn:a"><x>v</x></T>', "c": None, "root": 1},
+        {"k": "json_parse_any", "doc": '{"x": "v"}', "c": None}])}
+    # a class defined between two documents without a module import
+    U = G.U_WITNESS
+    yield {"universe": U, "steps": [
+        {**G.W(1, 0), "op": {"k": "xml_parse", "doc": "<C><x>v</x></C>", "c": None, "root": 0}},
+        {**G.W(3, 0), "op": {"k": "xml_parse", "doc": '<PA xmlns="urn:a"/>', "c": None, "root": 1}},
+        {**G.W(3, 1), "op": {"k": "xml_parse", "doc": '<PA xmlns="urn:a"/>', "c": None, "root": 1}}]}
+    n = 200 if tier == "quick" else 2000
     for _ in range(n):
-        U = G.rand_universe(rng, declared=rng.random() < 0.7, clean=True)
+        r = rng.random()
+        # most universes look like generated bindings; some contain unbuildable / foreign classes
+        U = G.rand_universe(rng, declared=rng.random() < 0.7, clean=r < 0.6)
         docs = G.rand_docs(rng, U)
         if not docs:
             continue
+        worlds = G.rand_worlds(rng, len(U), rng.randint(2, 8), fixed=r < 0.45)
         steps = []
-        for _ in range(rng.randint(2, 8)):
-            steps.append({**G.W(len(U)), "op": rng.choice(docs)})
-        yield {"universe": U, "steps": steps}
+        for w in worlds:
+            ok = [d for d in docs if G.op_max_class(d) < w["loaded"]]
+            if ok:
+                steps.append({**w, "op": rng.choice(ok)})
+        if len(steps) >= 2:
+            yield {"universe": U, "steps": steps}
 
 
 # ---------------------------------------------------------------- memo / lru / recorder
@@ -541,6 +605,12 @@ def check_rec(a):
         rf = fresh.from_string(doc, RecRoot, ns_map=arg_f)
         if rs != rf:
             return f"call #{i}: result differs"
+        # the result is a function of the document alone: an independent XML parser reads the same names
+        import xml.etree.ElementTree as ET
+
+        want = [e.tag for e in list(ET.fromstring(doc).iter())[1:]]
+        if rec_chain(rs) != want:
+            return f"call #{i}: parsing {doc!r} bound the elements {rec_chain(rs)}, the document contains {want}"
         if c["arg"] is not None:
             # reference: the caller's map keeps its entries and gains the first
             # binding of every other prefix the document declares
